@@ -159,6 +159,35 @@ def nested_doc(rng):
     return s, names
 
 
+def handover_doc(rng):
+    """tags the tag scanner has to hand to the lexer (RequestLexeme): foreign content whose integration points hold end
+    tags with unhashable names, `font` / annotation-xml candidates, each directly followed by start tags that selectors
+    aim at; with only selector-scoped handlers the parser goes scan -> lex -> scan around them"""
+    root = rng.choice(["math", "svg"])
+    ips = ["mi", "mo", "mtext", "ms", "annotation-xml encoding=text/html"] if root == "math" else ["desc", "title", "foreignObject"]
+    targets = rng.sample(["b", "i", "span", "a", "q7", "li"], 2)
+    s = rng.choice(["", "<p>", "x"]) + "<" + root + ">"
+    for _ in range(rng.randrange(1, 4)):
+        ip = rng.choice(ips)
+        s += "<" + ip + ">"
+        for _ in range(rng.randrange(1, 4)):
+            r = rng.random()
+            if r < 0.45:
+                s += rng.choice(["</x-custom>", "</my:el>", "</annotation-xml>", "</a1-b>", "</" + "z" * 14 + ">"])
+            elif r < 0.6:
+                s += rng.choice(["<font color=red>", "<font>", "<annotation-xml encoding='TEXT/html'>", "<x-custom a=b>"])
+            else:
+                s += "t"
+            t = rng.choice(targets)
+            s += "<%s%s>%s" % (t, rng.choice(["", " class=foo", " id=x"]), rng.choice(["y", "", "</%s>" % t]))
+        if rng.random() < 0.8:
+            s += "</" + ip.split(" ")[0] + ">"
+    if rng.random() < 0.8:
+        s += "</" + root + ">"
+    s += "<%s>z</%s>" % (targets[0], targets[0])
+    return s, targets
+
+
 def gen_case(rng, tier, mode):
     shape = rng.random()
     doc, evs = document(rng, tier)
@@ -175,7 +204,13 @@ def gen_case(rng, tier, mode):
         # many registered selectors: match-id sets beyond one / two machine words
         nsel = rng.choice([31, 32, 33, 63, 64, 65, 66, 70])
         sels = [gen_selector(rng, evs, tree) if rng.random() < 0.5 else simple_sellist(rng) for _ in range(nsel)]
-    elif shape < 0.17:
+    elif shape < 0.12:
+        s, names = handover_doc(rng)
+        doc = s.encode()
+        nsel = rng.choice([1, 2, 3])
+        ndoc = rng.choice([0, 0, 0, 1])
+        sels = [[[[("t", rng.choice(names))]]] if rng.random() < 0.8 else [[[("u",)]]] for _ in range(nsel)]
+    elif shape < 0.2:
         s, names = nested_doc(rng)
         doc = s.encode()
         nsel = rng.choice([1, 2, 3])
